@@ -161,11 +161,11 @@ static bool isOverlongUTF8(unsigned int ucs, int len)
 static xmlChar* xmlEscapePropValue(const char *str) {
     size_t len = strlen(str);
     /*
-     * The worst-case length of the output is 4 times the input length (if
-     * every input byte has to be escaped) plus 1 for the terminating NUL
+     * The worst-case length of the output is 5 times the input length (a
+     * one byte character shown as "&x1f;") plus 1 for the terminating NUL
      * character
      */
-    size_t retLen = len * 4 + 1;
+    size_t retLen = len * 5 + 1;
     xmlChar* ret = xmlMalloc(retLen), *retPos = ret, *retEnd = ret + retLen;
     if (!ret) {
         fprintf(stderr, "memory allocation failure in %s\n", __func__);
@@ -184,7 +184,11 @@ static xmlChar* xmlEscapePropValue(const char *str) {
                     while (utfLen--)
                         *retPos++ = *it++;
                 } else {
-                    xmlStrPrintf(retPos, retEnd - retPos, "&x%x;", ucs);
+                    /* A character XML cannot carry: show its code point instead */
+                    int written = xmlStrPrintf(retPos, retEnd - retPos, "&x%x;", ucs);
+                    if (written > 0)
+                        retPos += written;
+                    it += utfLen;
                 }
             } else {
                 /* Disallowed character or overlong UTF8, escape entire sequence */
